@@ -701,6 +701,14 @@ def sequences(tier):
                     steps.append(dict(mols=[(name, g) for g in perm2], mode="reuse"))
                     steps.append(dict(mols=[(name, g) for g in perm3], mode="reuse"))
                     T.append(dict(kind="seq", method="cis", tol=1e-6, n=3, best_guess=best, steps=steps))
+    # RPA with the stored [X;Y] amplitudes handed back as the guess (what every MD step on an RPA state does)
+    for name in mols:
+        for a2 in [(1, "reuse"), (2, "reuse")]:
+            for a3 in [(0, "reuse"), (2, "reuse"), (1, "fresh")]:
+                steps = [dict(mols=[(name, 0)], mode="fresh")] + [dict(mols=[(name, g)], mode=m) for g, m in (a2, a3)]
+                T.append(dict(kind="seq", method="rpa", tol=1e-6, n=3, best_guess=True, steps=steps))
+        steps = [dict(mols=[(name, g) for g in (0, 1, 2)], mode="fresh"), dict(mols=[(name, g) for g in (1, 2, 0)], mode="reuse")]
+        T.append(dict(kind="seq", method="rpa", tol=1e-6, n=2, best_guess=True, steps=steps))
     # the same object evaluated again (phase alignment against the stored amplitudes), CIS and RPA
     for name in mols:
         for method in ("cis", "rpa"):
